@@ -121,6 +121,10 @@ pub struct LossyCase {
     pub stream: Vec<u64>,
     /// clear() before this stream position (0 = never)
     pub clear_at: usize,
+    /// before this stream position (0 = never) the counter is replaced by a counter of another
+    /// configuration that was overwritten with `Clone::clone_from(&counter)`
+    #[serde(default)]
+    pub clone_from_at: usize,
 }
 
 pub struct S5a;
@@ -176,7 +180,7 @@ impl Scenario for S5a {
                 }
                 shape = "more-than-65536-tracked-elements";
             }
-            return LossyCase { width, epsilon, shape: shape.into(), thresholds: vec![0.0, epsilon, 0.1, 0.5], stream, clear_at: 0 };
+            return LossyCase { width, epsilon, shape: shape.into(), thresholds: vec![0.0, epsilon, 0.1, 0.5], stream, clear_at: 0, clone_from_at: 0 };
         }
         let (width, epsilon) = if g.chance(2, 3) {
             // mostly narrow windows (many pruning ticks per stream), sometimes wide ones whose
@@ -199,7 +203,8 @@ impl Scenario for S5a {
         let mut thresholds = vec![0.0, epsilon, 2.0 * epsilon, 0.1, 0.25, 0.5, 1.0, g.f64(), g.f64() * 0.2];
         thresholds.retain(|t| *t >= 0.0 && *t <= 1.0);
         let clear_at = if g.chance(1, 12) { g.range(1, len as u64) as usize } else { 0 };
-        LossyCase { width, epsilon, shape: shape.into(), thresholds, stream, clear_at }
+        let clone_from_at = if g.chance(1, 6) { g.range(1, len as u64) as usize } else { 0 };
+        LossyCase { width, epsilon, shape: shape.into(), thresholds, stream, clear_at, clone_from_at }
     }
 
     fn execute(case: &LossyCase, prop: &'static str) -> Outcome {
@@ -235,6 +240,20 @@ impl Scenario for S5a {
                     n = 0;
                     if lc.n() != 0 || lc.query(0.0).count() != 0 {
                         viol.push(v("C19", "lossycounter/clear/not-empty".into(), step, "after clear(): n() or query(0) not empty".into()));
+                        return;
+                    }
+                }
+                if case.clone_from_at == i && i > 0 {
+                    // state transfer: a counter with another window width and a few elements of its own
+                    let mut other: LossyCounter<u64> = LossyCounter::with_width(width + 3);
+                    for j in 0..5u64 {
+                        other.add(900_000_000 + j);
+                    }
+                    other.clone_from(&lc);
+                    lc = other;
+                    stats.fault("fork");
+                    if lc.width() != width || lc.epsilon().to_bits() != eps.to_bits() || lc.n() != n {
+                        viol.push(v("C09", "lossycounter/clone_from/differs-from-source".into(), step, format!("after clone_from: width {} / epsilon {} / n {}, the source has {} / {} / {}", lc.width(), lc.epsilon(), lc.n(), width, eps, n)));
                         return;
                     }
                 }
@@ -340,11 +359,19 @@ impl Scenario for S5a {
             if c.clear_at >= c.stream.len() {
                 c.clear_at = 0;
             }
+            if c.clone_from_at >= c.stream.len() {
+                c.clone_from_at = 0;
+            }
             out.push(c);
         }
         if case.clear_at != 0 {
             let mut c = case.clone();
             c.clear_at = 0;
+            out.push(c);
+        }
+        if case.clone_from_at != 0 {
+            let mut c = case.clone();
+            c.clone_from_at = 0;
             out.push(c);
         }
         if case.thresholds.len() > 1 {
